@@ -72,6 +72,31 @@ impl<'a> Sx<'a> {
         self.out.emit("g.hist", &o);
     }
 
+    /// counter probes: for each linear projection a constructed board outside the history that agrees with the current (or the
+    /// start) position on that projection of the hash; the counter of such a board is 0 unless its full hash occurs in the game
+    fn probes(&mut self, rng: &mut Rng) {
+        let gm = match self.sess.game.as_ref() { Some(g) => g, None => return };
+        let targets: Vec<ChessBoard> = catch(|| {
+            let h = gm.get_action_history().get_positions();
+            let mut v = vec![gm.get_position()];
+            if let Some(f) = h.first() { v.push(*f); }
+            v
+        }).unwrap_or_default();
+        for (pi, (name, proj)) in PROJECTIONS.iter().enumerate() {
+            let p = match targets.get(pi % targets.len().max(1)) { Some(p) => *p, None => return };
+            match catch(|| colliding_board(&p, *proj, rng)).flatten() {
+                Some(q) => {
+                    self.out.stats.inc(&format!("game.probe_{name}"));
+                    let o = self.sess.op_probe(&q);
+                    if let Some(r) = raw(&q) {
+                        self.out.emit(&format!("g.probe {r}"), &o);
+                    }
+                }
+                None => self.out.stats.inc(&format!("game.probe_{name}_not_constructed")),
+            }
+        }
+    }
+
     /// custom metadata before an export (`games.rs: as_pgn`, the non-primary keys): well-formed tags round-trip, a value with a
     /// character outside the importer's value class (`'`) is silently dropped by the import - model and code must agree on both
     fn tags(&mut self, variant: usize) {
@@ -418,12 +443,42 @@ fn random_sessions(tier: usize, seed: u64, out: &mut Out) {
             }
         }
         sx.hist();
+        sx.probes(&mut rng);
         sx.end();
+    }
+}
+
+/// (fifth wave, C13-e) games through the G7c shape: a double pawn push gives check and the en-passant capture is the only
+/// reply (or one of two) - played as a game, so that the recorded flags and the rendered suffix of the push (`+`, not `#`), the
+/// status after it and the reply itself are observed through `Game`.
+fn g7c_sessions(tier: usize, seed: u64, out: &mut Out) {
+    let mut rng = Rng::new(seed, 607);
+    let want = [40usize, 2_000][tier];
+    let mut kept = 0;
+    let mut tries = 0;
+    while kept < want && tries < want * 20_000 && out.room() {
+        tries += 1;
+        if let Some((before, push, _after)) = gen::g7c_candidate(&mut rng) {
+            kept += 1;
+            let mut sx = Sx::new(out);
+            if !sx.start(&before) {
+                continue;
+            }
+            sx.out.stats.inc("game.g7c_sessions");
+            sx.act(&Action::MakeMove(push));
+            sx.hist();
+            if let Some((m, _)) = sx.legal_choice(&mut rng) {
+                sx.act(&Action::MakeMove(m));
+            }
+            sx.hist();
+            sx.end();
+        }
     }
 }
 
 pub fn game(tier: usize, seed: u64, out: &mut Out) {
     exhaustive(tier, out);
+    g7c_sessions(tier, seed, out);
     random_sessions(tier, seed, out);
 }
 
